@@ -48,7 +48,7 @@ def norm_events(evs, is_model, model_evs=None):
             continue
         if e.startswith("W@") or e.startswith("WX@"):
             e = "W:" + e.split(":", 1)[1]
-        elif e.startswith("C:") and not is_model:
+        elif e.startswith("C:") and not is_model and e.count(":") >= 5 and re.match(r"C:-?\d+:[01]:[^:]*:[01]:", e):
             p = e.split(":", 5)           # C db auth tok reg text
             e = "C:%s:%s:%s" % (p[1], p[2], p[5])
         out.append(e)
@@ -126,10 +126,26 @@ def correspond(iobs, mobs):
     """None if the implementation's observation equals the model's on the compared projection, else a description"""
     if len(iobs.conns) != len(mobs.conns):
         return "different number of connections"
+    traced = any(e == "RS" for _, evs in iobs.conns for e in evs)    # the tracer double is installed for single-connection cases only
+    def nospan(evs):
+        if traced:
+            return evs
+        # without command spans the calls of a map-iterating command cannot be delimited: sort each run of calls between replies
+        out, run = [], []
+        for e in evs:
+            if e in ("RS", "RF", "SF") or e.startswith("SS:"):
+                continue
+            if e.startswith("C:"):
+                p = e.split(":", 5)
+                run.append(e if len(p) < 6 else "C:%s:%s:%s" % (p[1], p[2], p[5]))
+            else:
+                out += sorted(run); run = []
+                out.append(e)
+        return out + sorted(run)
     for ci, ((ires, ievs), (mres, mevs)) in enumerate(zip(iobs.conns, mobs.conns)):
         if ires.split("(")[0] != mres.split("(")[0]:
             return "conn%d result impl=%s model=%s" % (ci, ires, mres)
-        a, b = align_pair(norm_events(ievs, False), norm_events(mevs, True))
+        a, b = align_pair(norm_events(nospan(ievs), False), norm_events(nospan(mevs), True))
         p = diff_pos(a, b)
         if p >= 0:
             return "conn%d event %d: impl=%s model=%s (impl tail %s | model tail %s)" % (
